@@ -78,3 +78,42 @@ func scopeNames(c *Ctx, sc map[ast.Node]bool) []string {
 	sort.Strings(out)
 	return out
 }
+
+// fnsBySyntax returns the SSA functions whose syntax is one of the nodes.
+func fnsBySyntax(c *Ctx, nodes map[ast.Node]bool) []*ssa.Function {
+	var out []*ssa.Function
+	for f := range c.allFns {
+		if s := f.Syntax(); s != nil && nodes[s] {
+			out = append(out, f)
+		}
+	}
+	return out
+}
+
+// renderClosures returns the function literals passed as the render callback
+// to helpers.RunAggregationLoop.
+func renderClosures(c *Ctx) map[ast.Node]bool {
+	out := map[ast.Node]bool{}
+	forEachCall(c, func(p *packagesPkg, fd *ast.FuncDecl, call *ast.CallExpr) {
+		if calleeName(p.TypesInfo, call) == "rare/cmd/helpers.RunAggregationLoop" && len(call.Args) == 3 {
+			if fl, ok := ast.Unparen(call.Args[2]).(*ast.FuncLit); ok {
+				out[fl] = true
+			}
+		}
+	})
+	return out
+}
+
+// scopeRenderers: everything the terminal renderers execute.
+func scopeRenderers(c *Ctx) map[ast.Node]bool {
+	var pk []string
+	for _, p := range c.Pkgs {
+		if p.PkgPath == "rare/pkg/multiterm" || len(p.PkgPath) > len("rare/pkg/multiterm/") && p.PkgPath[:len("rare/pkg/multiterm/")] == "rare/pkg/multiterm/" {
+			pk = append(pk, p.PkgPath)
+		}
+	}
+	pk = append(pk, "rare/pkg/color")
+	roots := fnsOfPackages(c, pk...)
+	roots = append(roots, fnsBySyntax(c, renderClosures(c))...)
+	return syntaxScope(reachableFrom(c, roots))
+}
